@@ -202,6 +202,15 @@ def extract_comb(repo):
     return out
 
 
+# last-known-good table constants (the values extracted from /repo when the check was built).  Used ONLY when the
+# translator no longer recognises the source, so that the correspondence and the oracles still run; the evidence
+# then says so.  On a recognised source everything is regenerated from /repo.
+FALLBACK = {"jkmn": {"sigma": ["X", "Y", "Z"], "base": 3, "sub": 1, "div": 2},
+            "comb": {"base": [(0, False, (0, 0), False, (1, 1)), (1, False, (0, 1), False, (1, 0)),
+                              (2, False, (0, 0), True, (1, 1)), (3, True, (0, 1), True, (1, 0))],
+                     "pairs": {(0, 0): "I", (1, 0): "X", (0, 1): "Z", "else": "Y"}}}
+
+
 def extract(repo):
     return {"jkmn": extract_jkmn(repo), "comb": extract_comb(repo)}
 
